@@ -588,6 +588,9 @@ pub enum ReaderCfg {
 /// What a re-entrant reader does in the middle of a request.
 #[derive(Clone, Debug, PartialEq, Eq, Serialize, Deserialize)]
 pub enum Nested {
+    /// `inner`, `times` times in a row within the one reader call (a reader
+    /// that works through a backlog: tables and rings of recent calls wrap)
+    Repeat { times: u32, inner: Box<Nested> },
     /// decode a whole message (`opts = None`: `Message::try_read`)
     Decode {
         #[serde(with = "crate::model::hexser")]
